@@ -20,32 +20,34 @@ Definition ci_size (ci : cinst) : N := N.of_nat (length (cells (ci_chain ci)) + 
 
 Definition line (held : list lval) (live : N) : string := show_held held ++ " live=" ++ dec live.
 
-(* [others]: values alive in the chains of the earlier instances *)
+(* one operation; [others]: values alive in the chains of the earlier instances *)
+Definition cop_step (others : N) (ci : cinst) (o : cop) : cinst * string :=
+  match o with
+  | CRef ty v =>
+    let ci1 := {| ci_chain := fst (push (ci_chain ci) (ty, v)); ci_helper := ci_helper ci;
+                  ci_held := (ci_held ci ++ [(ty, v)])%list |} in
+    (ci1, line (ci_held ci1) (others + ci_size ci1))
+  | CHelp ty v =>
+    let ci1 := {| ci_chain := ci_chain ci; ci_helper := fst (push (ci_helper ci) (ty, v));
+                  ci_held := (ci_held ci ++ [(ty, v)])%list |} in
+    (ci1, line (ci_held ci1) (others + ci_size ci1))
+  | CMut ty v =>
+    (* the value is changed through the &mut reference before it is read back; only the instance's OWN
+       chain is replaced *)
+    let v' := if N.ltb ty 2 then (v + 1000)%N else 0%N in
+    let ci1 := {| ci_chain := fst (push_mut (ci_chain ci) (ty, v')); ci_helper := ci_helper ci; ci_held := [] |} in
+    (ci1, line [(ty, v')] (others + ci_size ci1))
+  | CTouch =>
+    let ci1 := {| ci_chain := ci_chain ci; ci_helper := ci_helper ci; ci_held := [] |} in
+    (ci1, "[touch7] live=" ++ dec (others + ci_size ci1))
+  | CLive => (ci, line (ci_held ci) (others + ci_size ci))
+  end.
+
 Fixpoint session (others : N) (ci : cinst) (ops : list cop) : cinst * list string :=
   match ops with
   | [] => (ci, [])
   | o :: rest =>
-    let '(ci', out) :=
-      match o with
-      | CRef ty v =>
-        let ci1 := {| ci_chain := fst (push (ci_chain ci) (ty, v)); ci_helper := ci_helper ci;
-                      ci_held := (ci_held ci ++ [(ty, v)])%list |} in
-        (ci1, line (ci_held ci1) (others + ci_size ci1))
-      | CHelp ty v =>
-        let ci1 := {| ci_chain := ci_chain ci; ci_helper := fst (push (ci_helper ci) (ty, v));
-                      ci_held := (ci_held ci ++ [(ty, v)])%list |} in
-        (ci1, line (ci_held ci1) (others + ci_size ci1))
-      | CMut ty v =>
-        (* the value is changed through the &mut reference before it is read back; only the instance's OWN
-           chain is replaced *)
-        let v' := if N.ltb ty 2 then (v + 1000)%N else 0%N in
-        let ci1 := {| ci_chain := fst (push_mut (ci_chain ci) (ty, v')); ci_helper := ci_helper ci; ci_held := [] |} in
-        (ci1, line [(ty, v')] (others + ci_size ci1))
-      | CTouch =>
-        let ci1 := {| ci_chain := ci_chain ci; ci_helper := ci_helper ci; ci_held := [] |} in
-        (ci1, "[touch7] live=" ++ dec (others + ci_size ci1))
-      | CLive => (ci, line (ci_held ci) (others + ci_size ci))
-      end in
+    let '(ci', out) := cop_step others ci o in
     let '(ci'', outs) := session others ci' rest in
     (ci'', out :: outs)
   end.
